@@ -160,4 +160,17 @@ META["C11"] = {
     "technique": "TLA+ request/response specification + TLC trace validation of the real HTTP handlers over a child-process node",
 }
 
+META["C20"] = {
+    "text": "ClientTopology.tla specifies the endpoint-selection state machine (object sharing between primary and list, round-robin cursor, dead "
+            "marks, revive rule, preference fall-through); Safe (never dead / never excluded by the preference / an endpoint is returned whenever a "
+            "live permitted one exists) and Fair (cyclic visiting) are model-checked exhaustively, and the pinned variant that keeps the node type "
+            "of re-used endpoints violates Safe. The real topology object is stepped through seeded operation sequences, each real transition "
+            "validated by TLC. The real HTTPClient runs against a scripted cluster: TLC checks that every write goes to the node the client "
+            "currently believes to be the leader (configuration, redirects, /info/shards), that every call returns with a bounded number of "
+            "requests, and that writes converge on the new leader within three calls whenever redirect, health check or discovery can reach it.",
+    "note": "Trusted: TLC, the scripted RoundTripper cluster (no sockets), net/http redirect handling. maxRetries is 0 in the call-level runs (the backoff "
+            "retrier sleeps 1 s per retry); health-check period is not exercised (checks run once per call path).",
+    "technique": "TLA+ endpoint-selection model (TLC) + per-transition trace validation of the real topology + trace validation of real client calls",
+}
+
 NOT_APPLICABLE = {}
